@@ -231,16 +231,41 @@ class Table:
     def run(self, sc, unnamed_fork=True):
         """set of outcomes under scenario sc"""
         outs = []
-        stack = [(0, None, (), ())]  # block, current ret value, calls, visited blocks
+        stack = [(0, None, (), (), ())]  # block, current ret value, calls, visited blocks, constant bool locals
         npaths = 0
         while stack:
-            bb, ret, calls, vis = stack.pop()
+            bb, ret, calls, vis, lv = stack.pop()
             if vis.count(bb) >= 2:
                 continue  # do not unroll loops more than once
             vis = vis + (bb,)
             blk = self.body.blocks[bb]
-            for e in self._ret_exprs(blk):
-                ret = self._eval_ret(e, sc)
+            lvd = dict(lv)
+            for s in blk.stmts:
+                if s.k != "assign" or s.lhs[1]:
+                    continue
+                v = None
+                if s.rv.k == "use":
+                    o = s.rv.ops[0]
+                    if o.kind == "const" and isinstance(o.value(), bool):
+                        v = o.value()
+                    elif o.place is not None and not o.place[1] and o.place[0] in lvd:
+                        v = lvd[o.place[0]]
+                elif s.rv.k == "un" and s.rv.j["op"] == "Not":
+                    o = s.rv.ops[0]
+                    if o.place is not None and not o.place[1] and o.place[0] in lvd:
+                        v = not lvd[o.place[0]]
+                if v is None:
+                    lvd.pop(s.lhs[0], None)
+                    if s.lhs[0] == 0:
+                        ret = self._eval_ret(self.x.rvalue(s.rv, self.x.depth), sc)
+                else:
+                    lvd[s.lhs[0]] = v
+                    if s.lhs[0] == 0:
+                        ret = v
+            lv = tuple(sorted(lvd.items()))
+            t0 = blk.term
+            if t0.k == "call" and t0.dest == (0, ()):
+                ret = self._eval_ret(self.x.call_expr(blk.i, t0, self.x.depth), sc)
             t = blk.term
             if t.k == "call":
                 cp = t.callee_path() or "<indirect>"
@@ -249,7 +274,10 @@ class Table:
                 if t.target is None:
                     outs.append(Outcome(None, calls, vis))
                     continue
-                stack.append((t.target, ret, calls, vis))
+                lvd2 = dict(lv)
+                if t.dest is not None and not t.dest[1]:
+                    lvd2.pop(t.dest[0], None)
+                stack.append((t.target, ret, calls, vis, tuple(sorted(lvd2.items()))))
             elif t.k == "return":
                 npaths += 1
                 outs.append(Outcome(ret, calls, vis))
@@ -258,6 +286,16 @@ class Table:
             elif t.k == "switch":
                 n = len(t.targets) + 1
                 decided = []
+                dl = t.discr.place
+                if dl is not None and not dl[1] and dl[0] in dict(lv):
+                    val = int(dict(lv)[dl[0]])
+                    kk = len(t.targets)
+                    for k2, (v2, _) in enumerate(t.targets):
+                        if v2 == val:
+                            kk = k2
+                    tgt = t.targets[kk][1] if kk < len(t.targets) else t.otherwise
+                    stack.append((tgt, ret, calls, vis, lv))
+                    continue
                 for k in range(n):
                     ok = self._edge_ok(("e", bb, k), sc)
                     if ok is False:
@@ -265,10 +303,10 @@ class Table:
                     decided.append((k, ok))
                 for k, ok in decided:
                     tgt = t.targets[k][1] if k < len(t.targets) else t.otherwise
-                    stack.append((tgt, ret, calls, vis))
+                    stack.append((tgt, ret, calls, vis, lv))
             elif t.k in ("goto", "assert", "drop"):
                 if t.target is not None:
-                    stack.append((t.target, ret, calls, vis))
+                    stack.append((t.target, ret, calls, vis, lv))
             else:
                 outs.append(Outcome(None, calls, vis))
         return outs
